@@ -1,4 +1,5 @@
 import EchoModel.Wire
+import EchoModel.C10Parse
 /-!
 # C10 — client-IP extraction (ip.go, context.go RealIP)
 
@@ -11,23 +12,22 @@ Model of `ExtractIPDirect`, `ExtractIPFromRealIPHeader`, `ExtractIPFromXFFHeader
 * `net.SplitHostPort` is implemented here (`splitHostPort`).
 * `strings.TrimSpace` is implemented for arbitrary byte strings (ASCII white space and the
   UTF-8 encodings of the other `unicode.IsSpace` runes).
-* `net.ParseIP` is NOT modelled: the harness supplies, for every candidate token, the
-  result (`Option IP`).  All functions and theorems take `parse : Str → Option IP` as a
-  parameter; theorems hold for an arbitrary `parse`.
+* `net.ParseIP` is modelled in `EchoModel/C10Parse.lean` (`parseIP`).  The functions below and
+  the theorems of `EchoProofs/C10*.lean` take `parse : Str → Option IP` as a parameter and hold
+  for an arbitrary `parse`; `EchoProofs/C10ParseInst.lean` instantiates them with `parseIP`.
+  The harness still ships, for every candidate token, Go's parse result inside the op line
+  (unchanged line format); `runLine` evaluates the case with that table AND requires that
+  `parseIP` agrees with it on every token (`parse-mismatch` otherwise).  Op kind 3 compares
+  `parseIP` with `net.ParseIP` on a list of tokens.
 -/
 namespace C10
 
-abbrev Byte := BitVec 8
-/-- Go `net.IP` (`[]` is the nil IP) -/
-abbrev IP := List Byte
-/-- a Go string as the list of its bytes (each a `Char` < 256) -/
-abbrev Str := List Char
+/- `Byte`, `IP` (Go `net.IP`, `[]` = nil), `Str` (a Go string as the list of its bytes) and
+   `v4InV6Prefix` are defined in `EchoModel/C10Parse.lean`. -/
 
 /-! ## net.IP classification -/
 
 def byteAt (ip : List Byte) (i : Nat) : Byte := ip.getD i 0
-
-def v4InV6Prefix : List Byte := [0, 0, 0, 0, 0, 0, 0, 0, 0, 0, 0xff, 0xff]
 
 /-- `IP.To4`: a 4-byte slice is returned as is, a 16-byte IPv4-mapped address yields its
     last four bytes, everything else is nil -/
@@ -409,6 +409,7 @@ inductive Op where
   | table (cfg : Cfg) (addrs : List IP)
   | replaced (cfgA : Cfg) (eA : Ext) (tbl : List (Str × Option IP)) (rsA : List Req)
       (cfgB : Cfg) (eB : Ext) (rsB : List Req)
+  | parses (toks : List Str)
 
 def pOp : P Op := do
   let k ← nat
@@ -432,24 +433,39 @@ def pOp : P Op := do
     let eB ← pExt
     let rsB ← list pReq
     pure (.replaced cfgA eA tbl rsA cfgB eB rsB)
+  | 3 =>
+    let ts ← list str
+    pure (.parses ts)
   | _ => failure
+
+/-- the first token of the table on which the model's `parseIP` and the shipped result of
+    `net.ParseIP` differ -/
+def tableMismatch (tbl : List (Str × Option IP)) : Option Str :=
+  tbl.findSome? fun (t, o) => if parseIP t = o then none else some t
+
+def encIP (ip : IP) : String := encBytes (ip.map BitVec.toNat)
 
 /-- lines:
     `0 cfg ext table nreq req*` → `nreq (peer result)*`  (or `missing-parse`)
     `1 cfg naddr addr*` → string of `0`/`1` trust decisions
-    `2 cfgA extA table nA req* cfgB extB nB req*` → `n (peer result)*` over both phases -/
+    `2 cfgA extA table nA req* cfgB extB nB req*` → `n (peer result)*` over both phases
+    `3 ntok tok*` → `ntok (0 | 1 ip)*`: `parseIP` of every token
+    (kinds 0 and 2: `parse-mismatch tok` when `parseIP` disagrees with a table entry) -/
 def runLine (line : String) : String :=
   match parseLine pOp line with
   | none => "bad-op"
+  | some (.parses ts) => render (encList (fun t => encOpt (fun ip => [encIP ip]) (parseIP t)) ts)
   | some (.reqs cfg e tbl rs) =>
-    if rs.all (fun r => (neededTokens e r).all (fun t => (tbl.lookup t).isSome)) then
+    if let some t := tableMismatch tbl then render ["parse-mismatch", encStr t]
+    else if rs.all (fun r => (neededTokens e r).all (fun t => (tbl.lookup t).isSome)) then
       render (encList (fun r => [encStr (peerOf r.remoteAddr), encStr (realIPCtx e cfg (tableParse tbl) r)]) rs)
     else "missing-parse"
   | some (.table cfg addrs) =>
     String.ofList (addrs.map fun a => if trust cfg a then '1' else '0')
   | some (.replaced cfgA eA tbl rsA cfgB eB rsB) =>
     -- requests under extractor A, then `e.IPExtractor = B`, then requests under B, one Echo instance
-    if rsA.all (fun r => (neededTokens eA r).all (fun t => (tbl.lookup t).isSome)) &&
+    if let some t := tableMismatch tbl then render ["parse-mismatch", encStr t]
+    else if rsA.all (fun r => (neededTokens eA r).all (fun t => (tbl.lookup t).isSome)) &&
         rsB.all (fun r => (neededTokens eB r).all (fun t => (tbl.lookup t).isSome)) then
       let steps := Step.setExtractor eA cfgA :: rsA.map Step.serve ++ Step.setExtractor eB cfgB :: rsB.map Step.serve
       let res := runSteps (tableParse tbl) (eA, cfgA) steps
